@@ -829,6 +829,23 @@ func TestSkipTemplates(t *testing.T) {
 			}
 		}
 	}
+	// an invocation that cannot write the cache file, between ordinary ones: whatever was recorded for
+	// the tasks it did not run still counts afterwards
+	for _, edit := range []string{"in.txt", "data.json"} {
+		for _, w := range ways {
+			for _, fl := range [][]string{nil, {"--json"}, {"--quiet"}} {
+				ro := w
+				ro.ROCache, ro.Flags = true, fl
+				c := SkipCase{NTasks: 2, FileDep: []string{"in.txt", "data.json"}, Deps: [][2]int{{0, 1}}, Steps: []SkipStep{w, {Edit: edit}, ro, w, w, {Edit: edit, Revert: true}, ro, w}}
+				s.Eval()
+				s.Class("enumerated_read_only_cache_between_runs")
+				if f := execSkip(id(), s, b, c); f != nil && !seen[f.Sig] {
+					seen[f.Sig] = true
+					s.Violation("skipbin", f.Sig, f.Msg, f.Size, c)
+				}
+			}
+		}
+	}
 	if s.Failed() {
 		t.Fatal("violations recorded")
 	}
